@@ -144,3 +144,9 @@ def _merkle():
 def _bip32():
     from dsim.models import bip32
     bip32.kat()
+
+
+@register("wire-model", ["C07", "C14", "C13", "C04", "C05", "C06"])
+def _wire():
+    from dsim.models import wire
+    wire.kat()
